@@ -567,6 +567,24 @@ api_harness!(local_parent_guard_scope, stub_ready, {
     std::mem::forget(s);
 });
 
+// C05 / C10 / C11: an unsampled span set as local parent still opens a scope of its own (it shadows
+// an enclosing scope: the context inside is the unsampled span's), records nothing and sends nothing
+api_harness!(unsampled_scope_shadows, stub_ready, {
+    let i1 = any_item();
+    kani::assume(!i1.is_sampled);
+    let s = Span::new(vec![i1], "s", None);
+    let sid = id_of(&s);
+    let g = s.set_local_parent();
+    let c1 = SpanContext::current_local_parent();
+    kani::assert(c1.is_some(), "unsampled_scope_is_a_scope: Some inside the scope of an unsampled span");
+    let c1 = c1.unwrap();
+    kani::assert(c1.trace_id == i1.trace_id && c1.span_id == sid && !c1.sampled, "unsampled_scope_is_a_scope: the unsampled span's trace id, id and decision");
+    drop(g);
+    kani::assert(SpanContext::current_local_parent().is_none(), "scope_end_restores_no_local_parent: None after the guard is dropped");
+    kani::assert(nlog() == 0, "unsampled_scope_sends_nothing: no command for an unsampled scope");
+    std::mem::forget(s);
+});
+
 // C17: a captured set pushed under a span is submitted shared, under that span; an empty set is not
 // submitted.  The set is built directly (recording it through LocalSpan costs CBMC > 30 GB).
 api_harness!(push_child_spans_direct, stub_ready, {
